@@ -148,10 +148,10 @@ def dop(oid: str, name: str, dct: str, *, compu: str = IDENTICAL, ptype: str = "
 
 
 def dtc_dop(oid: str, name: str, dct: str, dtcs: Sequence[Tuple[str, str, int, str]], *, compu: str = IDENTICAL,
-            ptype: str = "A_UINT32", linked: Sequence[Tuple[str, Sequence[str]]] = ()) -> str:
-    """dtcs: (id, short name, trouble code, text)"""
+            ptype: str = "A_UINT32", linked: Sequence[Tuple[str, Sequence[str]]] = (), dtc_refs: Sequence[str] = ()) -> str:
+    """dtcs: (id, short name, trouble code, text); dtc_refs: ids of trouble codes defined by other DTC-DOPs"""
     d = "".join(tag("DTC", sn(s) + f"<TROUBLE-CODE>{tc}</TROUBLE-CODE><TEXT>{_e(txt)}</TEXT>", ID=i)
-                for (i, s, tc, txt) in dtcs)
+                for (i, s, tc, txt) in dtcs) + "".join(ref("DTC-REF", i) for i in dtc_refs)
     body = sn(name) + dct + tag("PHYSICAL-TYPE", "", **{"BASE-DATA-TYPE": ptype}) + compu + tag("DTCS", d)
     if linked:
         # (id of the linked DTC-DOP, short names of its DTCs that are not inherited)
